@@ -52,7 +52,7 @@ def applicable(cls, kind, inst, meta):
     if kind == "coverage_invalid_without_constraints":
         return True
     if kind == "slightly_non_conserving":
-        return cls in ("kFlowDecomp", "MinFlowDecomp", "MinFlowDecompCycles", "kFlowDecompCycles") and not node and "elements_to_ignore" not in kw and kw.get("weight_type") == "float" \
+        return cls in ("kFlowDecomp", "MinFlowDecomp", "MinFlowDecompCycles") and not node and "elements_to_ignore" not in kw and kw.get("weight_type") == "float" \
             and not kw.get("additional_starts") and not kw.get("additional_ends")      # (flow may begin / end at declared extra start / end nodes)
     if kind.startswith("coverage_length") or kind.endswith("_with_length"):
         return not node and not cyc          # (coverage by length exists for the DAG models only)
